@@ -49,7 +49,40 @@ func (g *ProgGen) unf(t *ast.Ty) *ast.Ty { return g.Env.Unfold(t) }
 
 // ann returns a printable copy of a resolved type with a head annotation chosen so that it
 // resolves to the same mode (explicit, or omitted when inference recovers it).
+// respell returns an equal type written differently: another name with the same unfolding, the
+// unfolded definition in place of a name, or a name in place of a structure it abbreviates.
+func (g *ProgGen) respell(t *ast.Ty) *ast.Ty {
+	if g.Env == nil {
+		return t
+	}
+	var cands []*ast.Ty
+	for _, n := range g.Env.Order {
+		d := g.Env.Defs[n]
+		if d.Mode != t.M || (t.K == ast.KName && t.Name == n) {
+			continue
+		}
+		if g.Env.Equal(d.Ty, t) {
+			cands = append(cands, ast.NameTy(t.M, n))
+		}
+	}
+	if t.K == ast.KName {
+		if d := g.Env.Defs[t.Name]; d != nil && d.Ty.Size() <= 12 {
+			b := d.Ty.Clone()
+			b.Ann, b.Paren = "", false
+			cands = append(cands, b)
+		}
+	}
+	if len(cands) == 0 {
+		return t
+	}
+	g.feat("type-respelled")
+	return cands[g.Pick(len(cands), "respell")]
+}
+
 func (g *ProgGen) ann(t *ast.Ty) *ast.Ty {
+	if g.Chance(25, "respell") {
+		t = g.respell(t)
+	}
 	c := t.Clone()
 	c.Ann = ""
 	if c.IsShift() {
@@ -516,6 +549,9 @@ func (g *ProgGen) Program() *ast.Program {
 		}
 		if g.Chance(40, "counterscenario") {
 			g.counterScenario(0)
+		}
+		if g.Chance(35, "relayscenario") {
+			g.relayScenario(0)
 		}
 	}
 	if g.dead {
